@@ -334,6 +334,12 @@ func scanPanics(s *sink, caseName string, all []opRec) {
 func quiesce(s *sink, w *world, caseName, scenario string, names []string, r0 *recorder, others []*recorder, flaky map[string]bool, lr *linResult, qs *quiesceStats) []opRec {
 	obs := observe(r0, names)
 	all := openStops(w, mergeRecs(append([]*recorder{r0}, others...)...))
+	// informers go when the CRD of their kind is deleted (the harness does that); an informer the
+	// engine removes of its own accord while handlers are registered on it silences watches nobody
+	// asked to stop - other controllers' among them
+	if un := w.fc.takeUnsolicited(); len(un) > 0 {
+		s.Violate("engine-removed-informer-under-live-registrations", caseName, fmt.Sprintf("the engine removed informer(s) although no CRD was deleted, with handler registrations still live on them: %v", un), map[string]any{"scenario": scenario, "history": r0.recs})
+	}
 	scanPanics(s, caseName, all)
 	checkLinearizable(s, caseName, all, lr)
 	reported := checkRegistrations(s, w, caseName, scenario, names, all, obs, flaky, qs)
